@@ -252,3 +252,46 @@ def prune(n):
         m['b'] = prune(n.get('b'))
         return m
     return n
+
+
+ERASED_METHODS = {'array', 'matrix', 'eval', 'derived', 'noalias'}
+
+
+def sx(e):
+    """S-expression of an expression with Eigen view wrappers (.array(), .matrix(), .eval()) and casts erased:
+    nested tuples ('op', args...), leaves are strings (names / this.field) or numbers."""
+    e = strip(e)
+    if e is None:
+        return None
+    k = e['k']
+    if k == 'Bin':
+        return (e['op'], sx(e['l']), sx(e['r']))
+    if k == 'Un':
+        return ('u' + e['op'], sx(e['e']))
+    if k == 'Cond':
+        return ('?:', sx(e['c']), sx(e['a']), sx(e['b']))
+    if k == 'Op':
+        a = [sx(x) for x in e['args']]
+        return (e['op'],) + tuple(a)
+    if k == 'MCall':
+        if e.get('m') in ERASED_METHODS and not e['args']:
+            return sx(e['obj'])
+        return ('.' + str(e.get('m')), sx(e['obj'])) + tuple(sx(a) for a in e['args'])
+    if k == 'Call':
+        return (short_fn(e.get('fn')),) + tuple(sx(a) for a in e['args'])
+    if k == 'Member':
+        b = sx(e['base'])
+        return '%s.%s' % (b, e['name']) if isinstance(b, str) else ('.member:' + e['name'], b)
+    if k == 'Ref':
+        return e.get('q') or e['name']
+    if k == 'This':
+        return 'this'
+    if k in ('Int', 'Float', 'Bool', 'Str'):
+        return e.get('v')
+    if k == 'Construct':
+        return ('new:' + short_fn(e['cls']),) + tuple(sx(a) for a in e.get('args', []))
+    if k == 'InitList':
+        return ('{}',) + tuple(sx(a) for a in e['args'])
+    if k == 'Index':
+        return ('[]', sx(e['base']), sx(e['idx']))
+    return ('?' + str(e.get('cls', k)),) + tuple(sx(a) for a in (e.get('args') or []))
